@@ -19,11 +19,35 @@ def extra_jobs(tier, seed):
         addrs = AG.address_corpus("quick", seed, mdl)[seed % 5::5]
         jobs = []
         jobs.append((w_aligned, (exe, addrs[1::2][:4000])))
+        for a in (b"user@example.org", "\u0438\u0432\u0430\u043d@\u043f\u043e\u0447\u0442\u0430.\u0440\u0444".encode(), b'"a\tb"@x.zzzz', b"a..b@c.com", b"u@[IPv6:::1]", b"u@xn--a-.example.org"):
+            jobs.append((w_repeat, (exe, a, 66000 if tier == "quick" else 200000)))
         for code, buf in ((-100, 0), (-100, 1), (-205, 0), (-304, 1), (-209, 0)):
             sel = addrs[(abs(code) + buf) % 3::3]
             jobs.append((w_forced, (wexe, sel, opts, code, buf)))
         return jobs
     return f
+
+
+def w_repeat(exe, addr, count):
+    """One object per mode, rfc changed after the set-up and never confirmed, the same address validated `count` times: the mode that
+    was confirmed keeps deciding (first outcome = every outcome)."""
+    from .. import driver
+    import collections
+    part = {"counters": collections.Counter(), "viol": [], "samples": [], "distinct": 0, "sets": {}}
+    try:
+        rec = driver.run_lines(exe, ["R %d %s" % (count, driver.hx(addr))])[0]
+    except driver.DriverCrash as c:
+        part["viol"].append(("repeat/crash/%s" % c.signature(), {"address": core.b2s(addr)}, {"stderr": c.stderr[-1500:]}))
+        return {PROP: part}
+    for m, v in rec.items():
+        if v is None:
+            continue
+        part["counters"]["repeat.validations"] += count
+        if v[0]:
+            part["viol"].append(("repeat/outcome-changes-after-n-validations/%s" % driver.MODES[int(m)], {"address": core.b2s(addr), "mode": driver.MODES[int(m)]},
+                                 {"deviating_calls": v[0], "first_at_call": v[1], "first_outcome": v[2:4], "deviating_outcome": v[4:6]}))
+    part["distinct"] = 1
+    return {PROP: part}
 
 
 def w_aligned(exe, addrs):
